@@ -318,6 +318,7 @@ def run(tier, seed, build, res):
         return ms
     process(cases, modes_of, res, 'docs')
     own_checks_stream(rng, res, 6 if tier == 'quick' else 80)
+    server_language_stream(res)
 
 
 def own_checks_stream(rng, res, n):
@@ -369,6 +370,39 @@ def own_checks_stream(rng, res, n):
             if got != exp:
                 res.failures.append((key, case, 'isolated letters stand at (line, column) '
                                      '%r, reported in order: %r' % (exp, got)))
+
+
+def server_language_stream(res):
+    """server emulation: the language of the request, not the one the server
+    was started with, is the main language of the text -- parts and language
+    codes of the submissions follow from it"""
+    tex = ('Dies ist ein deutscher Satz mit einigen Worten. \\foreignlanguage{english}{This is '
+           'a longer English insertion with many words.} Und wieder deutscher Text am Ende.\n'
+           '\\foreignlanguage{english}{Short one} dazu.\n')
+    for srv_lang, req_lang, multi in (('en-GB', 'de-DE', True), ('en-GB', 'de-DE', False),
+                                      ('de-DE', 'en-GB', True), ('de-DE', 'de-DE', True)):
+        tex2, parts = shellcase.shell_parts(tex, req_lang, multi, 2)
+        c = {'tex': tex, 'tex2': tex2, 'parts': parts, 'multi': multi, 'language': srv_lang,
+             'mlc': 2, 'answers': [b'{"matches": []}'] * max(1, len(parts))}
+        key = 'c14-srvlang:%s:%s:%r' % (srv_lang, req_lang, multi)
+        case = {'tex': tex, 'server_language': srv_lang, 'request_language': req_lang,
+                'multi': multi}
+        res.count('server-language', (srv_lang, req_lang, multi), nontrivial=True)
+        srv = Server(c)
+        try:
+            r = srv.post(tex2, req_lang)
+        except Exception as e:
+            res.failures.append((key, case, 'server: %r' % e))
+            continue
+        finally:
+            srv.close()
+        bad = check_lt_calls(c, r, 'server')
+        if bad:
+            res.failures.append((key, case, 'request in %s to a server started with %s: %s; '
+                                 'submissions %r' % (req_lang, srv_lang, '; '.join(bad),
+                                 [(x['argv'][x['argv'].index('--language') + 1]
+                                   if '--language' in x['argv'] else None, x['text'][:30])
+                                  for x in r.calls])))
 
 
 def case_from_json(x):
